@@ -7,6 +7,7 @@ SEG = 'photutils/segmentation/core.py::SegmentationImage'
 
 
 def register(reg):
+    register_border(reg)
     reg.record('SegmentationImage', {'data': ('arr', 2, 'int'), 'labels': ('seq', 'int'),
                                      'max_label': 'int', 'nlabels': 'int'})
     box = '(0, self.data.shape[0]), (0, self.data.shape[1])'
@@ -66,4 +67,31 @@ def register(reg):
                   'new_labels = np.arange(self.nlabels, dtype=dtype) + start_label + 1'),
                  ('new_label_map[self.labels] = new_labels', 'new_label_map[new_labels] = self.labels'),
                  ('data_new = new_label_map[self.data]', 'data_new = new_label_map[self.data] * 1 + 0 + (self.data > 0)')],
+    ))
+
+
+def register_border(reg):
+    """remove_border_labels: the border mask is True exactly on the pixels within border_width of
+    an image edge -- so "a zero border width removes nothing" -- for every image shape."""
+    reg.record('SegmentationImageShape', {'shape': ('tuple', 'pos', 'pos')})
+    reg.add(Contract(
+        target=f'{SEG}.remove_border_labels', props=['C05'], kind='method',
+        block=('border_mask', 'border_mask'), tag='border-mask',
+        block_like='np.zeros(self.shape, dtype=bool)',
+        params={'self': 'SegmentationImageShape', 'border_width': 'nat'},
+        requires=['2 * border_width < self.shape[0]', '2 * border_width < self.shape[1]'],
+        ensures=[
+            ('shape', 'border_mask.shape == self.shape'),
+            ('true-exactly-within-border-width-of-an-edge',
+             'forall(lambda i, j: iff(border_mask[i, j], i < border_width or '
+             'i >= self.shape[0] - border_width or j < border_width or '
+             'j >= self.shape[1] - border_width), (0, self.shape[0]), (0, self.shape[1]))'),
+            ('zero-width-selects-nothing',
+             'implies(border_width == 0, forall(lambda i, j: not border_mask[i, j], '
+             '(0, self.shape[0]), (0, self.shape[1])))'),
+        ],
+        mutants=[('border_mask[border_mask.shape[0] - border_width:] = True',
+                  'border_mask[-border_width:] = True'),
+                 ('border_mask[:border_width] = True', 'border_mask[:border_width + 1] = True'),
+                 ('for i in range(border_mask.ndim):', 'for i in range(1):')],
     ))
